@@ -140,7 +140,8 @@ func (c *CmdLine) regexpStr(input string) string {
 
 	result := bytes.Buffer{}
 	strippedInput, suffix := c.computeSuffix(input)
-	for i, char := range []byte(strippedInput) {
+	// insert the evasion pattern between characters, not between the bytes of a character
+	for i, char := range strippedInput {
 		if i > 0 {
 			result.WriteString(c.evasionPatterns[evasionPattern])
 		}
@@ -154,7 +155,7 @@ func (c *CmdLine) regexpStr(input string) string {
 }
 
 // regexpChar ensures that some special characters are escaped
-func (c *CmdLine) regexpChar(char byte) string {
+func (c *CmdLine) regexpChar(char rune) string {
 	logger.Trace().Msgf("regexpChar in: %v", char)
 
 	chars := ""
